@@ -841,4 +841,15 @@ def scenarios(tick=0.125):
             _fr("f2", enacts=[["rec", 907], ["bid", "stop", ["all"], None]])]},
         {"name": "m1", "sched": "inactive", "order": "back", "period": 0.0, "first": "f0", "frames": [
             _fr("f0", beacts=[["var", 0, ">=", 1]])]}]})))
+    # S12: transition between two frames (different outlines) that share one original auxiliary whose first
+    # frame is guarded: the ownership test passes (the owner is being exited) but the guard must still hold
+    out.append(("shared-aux-guard-on-transition", _tagged({"tick": tick, "nvars": 1, "framers": [
+        {"name": "m0", "sched": "active", "order": "front", "period": 0.0, "first": "f0", "frames": [
+            _fr("f0", enacts=[["put", 0, 1]], preacts=[["go", [["recurred", ">=", 2]], "f1"]]),
+            _fr("f1", enacts=[["rec", 908], ["bid", "stop", ["all"], None]])]},
+        {"name": "m1", "sched": "active", "order": "back", "period": 0.0, "first": "f0", "frames": [
+            _fr("f0", auxes=["a1"], reacts=[["put", 0, 0]], preacts=[["go", [["recurred", ">=", 1]], "f1"]]),
+            _fr("f1", auxes=["a1"])]},
+        {"name": "a1", "sched": "aux", "order": "mid", "period": 0.0, "first": "x", "frames": [
+            _fr("x", beacts=[["var", 0, ">=", 1]])]}]})))
     return out
